@@ -320,13 +320,20 @@ class Ctx:
     def build_harness(self):
         with Lock('cargo'):
             src_lock = os.path.join(REPO, 'Cargo.lock')
-            dst_lock = os.path.join(ROOT, 'harness', 'Cargo.lock')
+            hdir = os.path.join(ROOT, 'harness')
+            dst_lock = os.path.join(hdir, 'Cargo.lock')
+            toml = open(os.path.join(hdir, 'Cargo.toml.in')).read().replace('@REPO@', REPO)
+            tpath = os.path.join(hdir, 'Cargo.toml')
+            if not os.path.exists(tpath) or open(tpath).read() != toml:
+                with open(tpath, 'w') as f:
+                    f.write(toml)
             if not os.path.exists(dst_lock):
                 shutil.copy(src_lock, dst_lock)
-            rc, out = sh(['cargo', 'build', '--offline'], cwd=os.path.join(ROOT, 'harness'), timeout=3000)
+            cenv = {'CARGO_TARGET_DIR': os.path.join(CACHE, 'target')}
+            rc, out = sh(['cargo', 'build', '--offline'], cwd=hdir, timeout=3000, env=cenv)
             if rc != 0 and 'Cargo.lock' in out:
                 shutil.copy(src_lock, dst_lock)
-                rc, out = sh(['cargo', 'build', '--offline'], cwd=os.path.join(ROOT, 'harness'), timeout=3000)
+                rc, out = sh(['cargo', 'build', '--offline'], cwd=hdir, timeout=3000, env=cenv)
         self.oblige('harness-builds-against-working-tree', rc == 0, out[-600:])
         if rc != 0:
             self.proof_broken.append('harness does not build against /repo working tree: ' + out[-300:])
